@@ -28,7 +28,7 @@ import (
 // Peer is one client of the run.
 type Peer struct {
 	Role      string `json:"role"`      // read | publish
-	Transport string `json:"transport"` // udp | tcp | http | ws
+	Transport string `json:"transport"` // udp | tcp | http | ws | mcast (UDP-multicast reader, at most one per run)
 	StartUS   int    `json:"start_us"`
 	// Steps: how far the script goes before it idles: 1 start, 2 describe/announce,
 	// 3 setup, 4 play/record, 5 pause, 6 play/record again.
@@ -144,7 +144,15 @@ func gen(seed uint64, tier string) Scenario {
 		}
 	}
 	sc.Net = n
-	// hash-derived so that no other choice of the scenario moves
+	// one reader may use UDP-multicast (hash-derived so that no other choice of the scenario moves)
+	if x := core.HS(seed, "c13.mcast", "", 0); x%100 < 25 {
+		for i := range sc.Peers {
+			if sc.Peers[i].Role == "read" && (sc.Peers[i].Transport == "udp" || sc.Peers[i].Transport == "tcp") && sc.Peers[i].StallAtUS == 0 {
+				sc.Peers[i].Transport = "mcast"
+				break
+			}
+		}
+	}
 	if x := core.HS(seed, "c13.cbclose", "", 0); x%100 < 30 {
 		sc.CBClose = &CBClose{Kind: []string{"session", "server", "client"}[(x>>8)%3], Seq: 2 + int((x>>16)%12),
 			Spin: []int{1, 4, 32, 256}[(x>>24)%4], Swap: (x>>32)%3 != 0}
@@ -155,6 +163,18 @@ func gen(seed uint64, tier string) Scenario {
 		for _, s := range shutdownSites {
 			if r.Bool(0.35) {
 				sc.Yields[s] = core.YieldSpec{Hot: hot[s]}
+			}
+		}
+	}
+	// the multicast writer's queue is closed while the stream's mutex is held: a goroutine parked
+	// inside that queue would leave others blocked on the mutex, which synctest cannot see as
+	// quiescent (the simulator's own limitation, DESIGN 2.3) - no holds inside the queue then
+	for _, p := range sc.Peers {
+		if p.Transport == "mcast" {
+			for k := range sc.Yields {
+				if strings.HasPrefix(k, "ap.") || strings.HasPrefix(k, "rb.") {
+					delete(sc.Yields, k)
+				}
 			}
 		}
 	}
@@ -173,8 +193,11 @@ func tunnelOf(tr string) gortsplib.Tunnel {
 
 func protoOf(tr string) *gortsplib.Protocol {
 	p := gortsplib.ProtocolTCP
-	if tr == "udp" {
+	switch tr {
+	case "udp":
 		p = gortsplib.ProtocolUDP
+	case "mcast":
+		p = gortsplib.ProtocolUDPMulticast
 	}
 	return &p
 }
@@ -224,7 +247,7 @@ func run(t *testing.T, sc Scenario) *core.Result {
 	opts := sys.Options{Seed: sc.Seed, Net: sc.Net, Yields: sc.Yields, MaxSteps: 400000, Horizon: 30 * time.Minute, MaxHold: maxHold}
 	var summary map[string]any
 	res := sys.Run(t, opts, func(w *sys.World) {
-		w.ProbeInit("server_close_mid_run", "stream_close_mid_run", "client_close_concurrent", "client_close_mid_handshake", "close_inside_packet_callback",
+		w.ProbeInit("server_close_mid_run", "stream_close_mid_run", "client_close_concurrent", "client_close_mid_handshake", "close_inside_packet_callback", "multicast_reader",
 			"client_close_while_playing", "client_close_while_recording", "close_with_stalled_peer", "peer_vanished",
 			"server_close_with_sessions", "census_attributed_goroutines", "publisher", "secure", "session_closed_by_timeout_or_peer")
 		owners := core.NewOwners(classify)
@@ -239,6 +262,7 @@ func run(t *testing.T, sc Scenario) *core.Result {
 		h := sys.NewHandler(w)
 		srv := &gortsplib.Server{
 			RTSPAddress: "10.0.0.1:8554", UDPRTPAddress: "10.0.0.1:8000", UDPRTCPAddress: "10.0.0.1:8001",
+			MulticastIPRange: "224.1.0.0/16", MulticastRTPPort: 8002, MulticastRTCPPort: 8003,
 			WriteQueueSize: sc.WQ, Handler: h,
 			ReadTimeout: ms(sc.ReadTO), WriteTimeout: ms(sc.WriteTO), IdleTimeout: ms(sc.IdleTO),
 		}
@@ -380,7 +404,14 @@ func run(t *testing.T, sc Scenario) *core.Result {
 		for i, p := range sc.Peers {
 			name := fmt.Sprintf("peer%d", i)
 			names = append(names, name)
-			node := w.Net.Node(name, fmt.Sprintf("10.0.0.%d", 20+i))
+			ip := fmt.Sprintf("10.0.0.%d", 20+i)
+			if p.Transport == "mcast" {
+				// the client looks its control connection's local address up among the machine's
+				// real interfaces (net.Interfaces) before it joins a group: 127.0.0.1 always exists
+				ip = "127.0.0.1"
+				w.Probe("multicast_reader")
+			}
+			node := w.Net.Node(name, ip)
 			c := &gortsplib.Client{Scheme: scheme, Host: "10.0.0.1:8554", Tunnel: tunnelOf(p.Transport), Protocol: protoOf(p.Transport),
 				ReadTimeout: ms(sc.ReadTO), WriteTimeout: ms(sc.WriteTO), WriteQueueSize: sc.WQ}
 			if sc.Secure {
